@@ -6,7 +6,8 @@ FPARAMS = obj('FiberParams', _length=real(), _att_in=real(), _con_in=real(), _co
               _f_loss_ref=vec1(), _ref_frequency=real(), _pmd_coef=real(), _latency=real(), _dispersion=vec1(),
               _dispersion_slope=opt(real()), _f_dispersion_ref=real())
 FIBER = obj('Fiber', uid=string(), params=FPARAMS, lumped_losses=vec('nlump', lo=0), z_lumped_losses=vec('nlump', lo=0),
-            pch_out_dbm=opt(vec('n')), propagated_labels=vec('n', 'str'), passive=const(True))
+            pch_out_dbm=opt(vec('n')), propagated_labels=vec('n', 'str'), passive=const(True), ref_pch_in_dbm=real(),
+            pch_out_db=opt(real()))
 
 SPEC_FIB = SPEC_EL + '''
 def LC(fiber):
